@@ -6,7 +6,7 @@ cd "$(dirname "$0")"
 export CARGO_NET_OFFLINE=true PYTHONPATH=/verif:/verif/checks PYTHONHASHSEED=0
 python3-vt - <<'PY'
 from llsym import build, entry
-for c in ('release-std', 'release-nosimd', 'devchk-std', 'devchk-nosimd', 'release-nounroll'):
+for c in ('release-std', 'release-nosimd', 'devchk-std', 'devchk-nosimd', 'release-nounroll', 'release-nostd-sse2'):
     lls, dt = build.build(c)
     print('built', c, len(lls), 'IR files in %.1fs' % dt)
 entry.replay_bin('release'); entry.replay_bin('debug')
